@@ -170,7 +170,8 @@ HdrEnd == 256 * KiB
 TableCap == 64 * KiB
 X0 == [fmt |-> "vhdx", ident |-> TRUE, regi |-> TRUE, rmeta |-> TRUE, rpad |-> 0, rpost |-> 0,
        rcount |-> -1, meta_off |-> 320 * KiB, msig |-> TRUE, mcount |-> -1, mpad |-> 0, mpost |-> 0,
-       mvds |-> TRUE, item_off |-> 64 * KiB, item_len |-> 8, size |-> "10G", total |-> -1]
+       mvds |-> TRUE, item_off |-> 64 * KiB, item_len |-> "8", size |-> "10G", total |-> -1]
+ItemLen(t) == CASE t = "8" -> 8 [] t = "0" -> 0 [] t = "4" -> 4 [] t = "16" -> 16 [] OTHER -> TableCap   \* clamped to 64 KiB
 XEnd(L) == L.meta_off + L.item_off + 8
 VhdxLayouts ==
      {[X0 EXCEPT !.size = s] : s \in SizeToks}
@@ -209,12 +210,12 @@ VhdxRef(L) ==
             IF avail < es THEN Agg(m, avail = TableCap, Zero, {})
             ELSE IF ~(L.mvds /\ L.mpad < mcount) THEN Agg(m, avail = TableCap, Zero, {})
             ELSE IF L.item_off < es THEN Rejected                          \* item inside the entry table
-            ELSE LET c == total >= L.meta_off + L.item_off + Min(L.item_len, TableCap)
+            ELSE LET c == total >= L.meta_off + L.item_off + ItemLen(L.item_len)
                  IN Agg(m, c, IF c THEN Tok(L.size) ELSE Zero, {})
 
 VhdxClean(L) == /\ L.ident /\ L.regi /\ L.rmeta /\ L.msig /\ L.mvds /\ L.rcount = -1 /\ L.mcount = -1
                 /\ L.meta_off >= HdrEnd /\ L.item_off >= 32 + (L.mpad + 1 + L.mpost) * 32
-                /\ L.total = -1 /\ L.item_len = 8
+                /\ L.total = -1 /\ L.item_len = "8"
                 /\ L.rpad + 1 + L.rpost <= 2047 /\ L.mpad + 1 + L.mpost <= 2047
 
 -----------------------------------------------------------------------------
@@ -297,6 +298,60 @@ VmdkUnsafe(L) ==
   \/ VmdkDescFails(L) # {} \/ L.desc_sec # "1"
   \/ (L.footer.present /\ L.footer.pert \notin {"none", "m_val"})
 VmdkClean(L) == /\ L.sig /\ L.ver \in {1, 2, 3} /\ L.total = -1 /\ ~VmdkUnsafe(L)
+
+
+-----------------------------------------------------------------------------
+(* C07: the stream position from which the size is known (the structure that  *)
+(* carries it has been captured completely); before it virtual_size is 0      *)
+CarrierEnd(L) ==
+  CASE L.fmt \in {"qcow2", "vhd", "vdi"} -> 512
+    [] L.fmt = "iso" -> 34816
+    [] L.fmt = "vhdx" -> L.meta_off + L.item_off + 8
+    [] L.fmt = "vmdk" -> 512 + DescNumBytes(L.desc_num)
+    [] OTHER -> 0
+SizedFormats == {"qcow2", "vhd", "vdi", "iso", "vhdx", "vmdk"}
+
+-----------------------------------------------------------------------------
+(* C05: retention caps.  Whatever the stream announces, region r of format f  *)
+(* never holds more than Cap(f, r) bytes, and the caps of a format sum to at  *)
+(* most Bound(f): 1.5 MiB for VMDK, 512 KiB otherwise.                        *)
+Cap(f, r) ==
+  CASE f = "iso" /\ r = "system_area" -> 32768
+    [] f = "iso" /\ r = "header" -> 2048
+    [] f = "luks" -> 592
+    [] f = "vhdx" /\ r = "ident" -> 32
+    [] f = "vhdx" -> 65536                      \* header, metadata, vds
+    [] f = "vmdk" /\ r = "header" -> 512
+    [] f = "vmdk" /\ r = "descriptor" -> DescCap
+    [] f = "vmdk" /\ r = "footer" -> 1536
+    [] OTHER -> 512                             \* qcow2 qed vhd vdi gpt: one 512-byte region
+RegionsOf(f) ==
+  CASE f = "iso" -> {"system_area", "header"} [] f = "vhdx" -> {"ident", "header", "metadata", "vds"}
+    [] f = "vmdk" -> {"header", "descriptor", "footer"} [] f = "gpt" -> {"mbr"}
+    [] f = "raw" -> {} [] OTHER -> {"header"}
+Bound(f) == IF f = "vmdk" THEN 1536 * KiB ELSE 512 * KiB
+RECURSIVE SumCaps(_, _)
+SumCaps(f, S) == IF S = {} THEN 0 ELSE LET r == CHOOSE x \in S : TRUE IN Cap(f, r) + SumCaps(f, S \ {r})
+AllFormats == {"qcow2", "qed", "vhd", "vdi", "iso", "gpt", "luks", "raw", "vhdx", "vmdk"}
+ASSUME CapsWithinBound == \A f \in AllFormats : SumCaps(f, RegionsOf(f)) <= Bound(f)
+
+(* hostile layouts: every length / count / offset field at boundary and       *)
+(* maximal values on streams of several MiB                                   *)
+Big == 3 * 1024 * KiB
+HostileLayouts ==
+     {[M0 EXCEPT !.desc_num = dn, !.total = Big, !.footer = f, !.sectors = "2^55-1"] :
+         dn \in {"2047", "2048", "2^55", "2^64-1"}, f \in {NoFooter, [present |-> TRUE, pert |-> "none"]}}
+\cup {[X0 EXCEPT !.item_len = il, !.mcount = mc, !.mpad = mp, !.total = Big, !.meta_off = mo] :
+         il \in {"8", "65536", "65537", "2^32-1"}, mc \in {-1, 2047, 2048, 65535}, mp \in {0, 2046},
+         mo \in {256 * KiB, 1024 * KiB}}
+\cup {[X0 EXCEPT !.rcount = rc, !.rpad = rp, !.total = Big] : rc \in {2047, 2048, 65535}, rp \in {0, 2046}}
+\cup {[fmt |-> "raw", kind |-> k, total |-> Big] : k \in {"text", "random", "zero"}}
+\cup {[Q0 EXCEPT !.total = Big], [fmt |-> "iso", sig |-> "CD001", dtype |-> 1, blocks |-> "2^32-1",
+                                  bs |-> "2^16-1", total |-> Big],
+      [fmt |-> "luks", magic |-> TRUE, version |-> 1, payload |-> "2^32-1", total |-> Big],
+      [fmt |-> "gpt", sig |-> TRUE, fat |-> FALSE, total |-> Big,
+       entries |-> <<Plain("00", "EE"), Plain("00", "00"), Plain("00", "00"), Plain("00", "00")>>]}
+InitHostile == img \in HostileLayouts
 
 -----------------------------------------------------------------------------
 Layouts == QcowLayouts \cup QedLayouts \cup VhdLayouts \cup VdiLayouts \cup IsoLayouts
